@@ -6,8 +6,8 @@ scratch=$(mktemp -d /tmp/gocv-mutant.XXXXXX)
 trap 'rm -rf "$scratch"' EXIT
 rsync -a --exclude .git /repo/ "$scratch/"
 if ! (cd "$scratch" && patch -p1 -s < "$patch"); then echo "MUTANT $(basename $patch) $prop: PATCH-FAILED"; exit 3; fi
-out=$(/verif/bin/gocv check --repo "$scratch" --prop "$prop" --tier "$tier" --no-evidence 2>&1); code=$?
+out=$(VERIF_REPO="$scratch" /verif/check "$prop" "$tier" 2>&1); code=$?
 viol=$(echo "$out" | grep -c '^VIOLATION')
 echo "MUTANT $(basename $patch) $prop: exit=$code violations=$viol"
-echo "$out" | grep '^VIOLATION' | head -5
+echo "$out" | grep '^VIOLATION' | sed "s#$scratch#<tree>#g" | head -5
 exit $code
